@@ -35,14 +35,15 @@ REQUIRED_MONITORS = ["patch-test-poisson", "patch-test-reaction-diffusion", "pat
 REQUIRED_REACH = ["mixed-dirichlet-neumann", "pure-dirichlet", "boundary-projection-used", "nodal-values-used",
                   "non-affine-degree-one", "graded-mesh", "vector-element-projection", "hdiv-hcurl-projection",
                   "neumann-part-as-overlapping-tags", "constrained-by-enforce-then-condense",
-                  "two-splits-on-one-assembled-system"]
+                  "two-splits-on-one-assembled-system", "complex-valued-projection", "complex-valued-boundary-projection",
+                  "solution-of-small-magnitude"]
 
 # (record name, degree of the manufactured solution)
 COMPLETE = {
     "line": [("ElementLineP1", 1), ("ElementLineP2", 2), ("ElementLineMini", 1), ("ElementLinePp(3)", 3), ("ElementLinePp(4)", 4)],
     "tri": [("ElementTriP1", 1), ("ElementTriP2", 2), ("ElementTriP3", 3), ("ElementTriP4", 4), ("ElementTriP1B", 1),
             ("ElementTriP2B", 2)],
-    "quad": [("ElementQuad1", 1), ("ElementQuad2", 2), ("ElementQuadS2", 2), ("ElementQuadP(3)", 3)],
+    "quad": [("ElementQuad1", 1), ("ElementQuad2", 2), ("ElementQuadS2", 2), ("ElementQuadP(3)", 3), ("ElementQuadP(5)", 5)],
     "tet": [("ElementTetP1", 1), ("ElementTetP2", 2), ("ElementTetMini", 1), ("ElementTetCCR", 2)],
     "hex": [("ElementHex1", 1), ("ElementHex2", 2), ("ElementHexS2", 2)],
     "wedge": [("ElementWedge1", 1)],
@@ -142,6 +143,12 @@ def scalar_patch(ctx, k, kind):
         raise Skip("mesh-too-large")
     d = mc.dim
     u = rand_poly(rng, d, deg)
+    mag = 1.0
+    if k % 5 == 3:
+        # the same problem in small units of the unknown (nanometre displacements in metres): linear, hence scale free
+        mag = 2.0 ** -32
+        u = X.pscale(u, Fraction(mag))
+        ctx.reached("solution-of-small-magnitude")
     reaction = (k // len(recs)) % 2 == 1
     c = float(rng.integers(1, 5)) if reaction else 0.0
     f = X.padd(X.pscale(laplacian(u, d), -1), X.pscale(u, Fraction(c)))
@@ -202,7 +209,7 @@ def scalar_patch(ctx, k, kind):
                 xall = skfem.FacetBasis(mesh, rec.make(), intorder=min(order, {"tet": 19, "tri": 12}.get(kind, order))).project(lambda x: u_fn(x))
             x1 = skfem.solve(*skfem.enforce(A, b0, x=xall, D=Dall))
             e1, n1 = l2_error(skfem.CellBasis(mesh, rec.make(), intorder=order), x1, u_fn)
-            ctx.check(monitor, e1 <= 1e-7 * (n1 + 1e-300) + 1e-12, mech=f"patch-test:{name.split('(')[0]}:first-of-two-splits",
+            ctx.check(monitor, e1 <= 1e-7 * (n1 + 1e-300) + 1e-12 * mag, mech=f"patch-test:{name.split('(')[0]}:first-of-two-splits",
                       error=e1, norm=n1, **tag)
             ctx.reached("two-splits-on-one-assembled-system")
         if k % 2 == 0:
@@ -241,7 +248,7 @@ def scalar_patch(ctx, k, kind):
                   mech="enforce-and-condense-solutions-differ", **tag)
     bhi = skfem.CellBasis(mesh, rec.make(), intorder=order)
     err, nrm = l2_error(bhi, xh, u_fn)
-    ctx.check(monitor, err <= 1e-8 * (nrm + 1e-300) + 1e-12, mech=f"patch-test:{name.split('(')[0]}:{'rd' if reaction else 'poisson'}",
+    ctx.check(monitor, err <= 1e-8 * (nrm + 1e-300) + 1e-12 * mag, mech=f"patch-test:{name.split('(')[0]}:{'rd' if reaction else 'poisson'}",
               error=err, norm=nrm, **tag)
     if (split == "mixed" or has_interior_vertex(mesh)):
         ctx.nontrivial(tag["problem"], name, type(mesh).__name__, split, "general" if general else "affine")
@@ -370,6 +377,17 @@ def projection(ctx, k, kind):
     y = basis.project(basis.interpolate(x))
     ctx.close("projection-identity-curved" if (curved and not mc.straight) else "projection-identity-whole", y, x, rtol=1e-8,
               scale=float(np.abs(x).max()), mech=f"projection:{base}", **tag)
+    cplx = rnd % 2 == 1 or rec.name in ("ElementTriP2", "ElementQuad2", "ElementTetP1")
+    if cplx:
+        # complex-valued functions of the space (dtype= as documented)
+        xc = x + 1j * rng.standard_normal(basis.N)
+        import warnings
+        with warnings.catch_warnings():
+            warnings.simplefilter("ignore")
+            yc = basis.project(basis.interpolate(xc), dtype=np.complex128)
+        ctx.close("projection-identity-whole" if not (curved and not mc.straight) else "projection-identity-curved", yc, xc,
+                  rtol=1e-8, scale=float(np.abs(xc).max()), mech=f"projection-complex:{base}", **tag)
+        ctx.reached("complex-valued-projection")
     nt = mesh.t.shape[1]
     S = np.sort(rng.choice(nt, size=max(1, nt // 2), replace=False)).astype(np.int32)
     # (1) basis restricted at construction: reproduces x on the DOFs of S for any x
@@ -400,6 +418,16 @@ def projection(ctx, k, kind):
             yb = fb.project(fb.interpolate(xb))
             ctx.close("projection-identity-boundary", yb, xb, rtol=1e-8, scale=float(np.abs(x).max()),
                       mech=f"projection-boundary:{base}", **tag)
+            if cplx:
+                xbc = np.zeros(basis.N, dtype=complex)
+                xbc[dB] = xc[dB]
+                import warnings
+                with warnings.catch_warnings():
+                    warnings.simplefilter("ignore")
+                    ybc = fb.project(fb.interpolate(xbc), dtype=np.complex128)
+                ctx.close("projection-identity-boundary", ybc, xbc, rtol=1e-8, scale=float(np.abs(xc).max()),
+                          mech=f"projection-boundary-complex:{base}", **tag)
+                ctx.reached("complex-valued-boundary-projection")
             # a part of the boundary through the facets= keyword
             bf = fb.find
             part = bf[: max(1, bf.size // 2)]
